@@ -9,6 +9,7 @@ import (
 	"net"
 	"os"
 	"os/signal"
+	"strings"
 	"sync"
 	"syscall"
 	"time"
@@ -293,23 +294,43 @@ func (m *execInitMsg) ToBytes() []byte {
 
 // GetCmd reads execInitMsg from an EXEC_CHANNEL and returns the cmd to run
 func GetCmd(c net.Conn) (string, string, bool, *pty.Winsize, error) {
-	//TODO (drebelsky): consider handling io errors
 	t := make([]byte, 1)
-	io.ReadFull(c, t)
+	if _, err := io.ReadFull(c, t); err != nil {
+		return "", "", false, nil, err
+	}
 	usePty := (t[0] & usePtyFlag) != 0
 	hasSize := (t[0] & hasSizeFlag) != 0
-	l := make([]byte, 4)
-	io.ReadFull(c, l)
-	buf := make([]byte, binary.BigEndian.Uint32(l))
-	io.ReadFull(c, buf)
-	io.ReadFull(c, l)
-	term := make([]byte, binary.BigEndian.Uint32(l))
-	io.ReadFull(c, term)
+	cmd, err := readLenPrefixed(c)
+	if err != nil {
+		return "", "", false, nil, err
+	}
+	term, err := readLenPrefixed(c)
+	if err != nil {
+		return "", "", false, nil, err
+	}
 	var size *pty.Winsize
 	if hasSize {
-		size, _ = readSize(c)
+		size, err = readSize(c)
+		if err != nil {
+			return "", "", false, nil, err
+		}
 	}
-	return string(buf), string(term), usePty, size, nil
+	return cmd, term, usePty, size, nil
+}
+
+// readLenPrefixed reads a 4-byte big-endian length followed by that many bytes.
+// The buffer grows with the data that actually arrives (the copy buffer is at
+// most 32 KiB), so a peer cannot make the reader allocate more than it sends.
+func readLenPrefixed(r io.Reader) (string, error) {
+	l := make([]byte, 4)
+	if _, err := io.ReadFull(r, l); err != nil {
+		return "", err
+	}
+	var b strings.Builder
+	if _, err := io.CopyN(&b, r, int64(binary.BigEndian.Uint32(l))); err != nil {
+		return "", err
+	}
+	return b.String(), nil
 }
 
 func readSize(r io.Reader) (*pty.Winsize, error) {
